@@ -191,7 +191,7 @@ def pipe_stream(name, harness_args, driver_mode, cache_key=None):
         if os.path.exists(cp):
             return json.load(open(cp))
     h = subprocess.Popen([HARNESS] + harness_args, stdout=subprocess.PIPE, stderr=subprocess.PIPE, env=ENV)
-    d = subprocess.Popen([DRIVER, driver_mode], stdin=h.stdout, stdout=subprocess.PIPE, stderr=subprocess.PIPE, text=True, env=ENV)
+    d = subprocess.Popen([DRIVER] + driver_mode.split(":"), stdin=h.stdout, stdout=subprocess.PIPE, stderr=subprocess.PIPE, text=True, env=ENV)
     h.stdout.close()
     out, derr = d.communicate()
     herr = h.stderr.read().decode(errors="replace")
